@@ -419,12 +419,22 @@ class World:
             lambda: self.b.undeclare_vars('zz_unknown'), ValueError,
             'undeclare.unknown_accepted')
 
+    def call(self, meth, keep, *pairs):
+        """Call `self.api.<meth>` with the arguments `pairs` =
+        (parameter name, value), ..., positionally or — every other
+        value of a bit of `keep` — by keyword, as the signature allows."""
+        f = getattr(self.api, meth)
+        if (keep >> 5) & 1:
+            self.label('call.keyword')
+            return f(**dict(pairs))
+        return f(*[v for _, v in pairs])
+
     # constructions -----------------------------------------------------
     def op_var(self, k, keep=1):
         x = self.decl(k)
         if x is None:
             return
-        self.hold(self.api.var(x), self.var_tt(x), keep)
+        self.hold(self.call('var', keep, ('var', x)), self.var_tt(x), keep)
 
     def op_build(self, t, route, keep=1):
         if self.nmax > 6:
@@ -557,7 +567,7 @@ class World:
                 arg = (x for x in list(d))
             elif k == 4:
                 arg = tuple(d)
-        self.hold(self.api.cube(arg), t, keep)
+        self.hold(self.call('cube', keep, ('dvars', arg)), t, keep)
 
     def op_find_or_add(self, k, i, j, keep=1):
         """Node `ite(x, hi, lo)` where hi, lo are projected so that they
@@ -588,7 +598,7 @@ class World:
     def op_apply(self, o, i, j, keep=1):
         op = BIN_OPS[o % len(BIN_OPS)]
         (u, tu), (v, tv) = self.pick(i), self.pick(j)
-        r = self.api.apply(op, u, v)
+        r = self.call('apply', keep, ('op', op), ('u', u), ('v', v))
         self.hold(r, tt.BINARY[op](tu, tv, self.n), keep)
 
     def op_not(self, o, i, keep=1):
@@ -598,7 +608,8 @@ class World:
 
     def op_ite(self, i, j, k, keep=1):
         (g, tg), (u, tu), (v, tv) = self.pick(i), self.pick(j), self.pick(k)
-        self.hold(self.api.ite(g, u, v), tt.ite(tg, tu, tv, self.n), keep)
+        self.hold(self.call('ite', keep, ('g', g), ('u', u), ('v', v)),
+                  tt.ite(tg, tu, tv, self.n), keep)
 
     def op_funcop(self, o, i, j, keep=1):
         """dd.autoref Function operators."""
@@ -635,9 +646,11 @@ class World:
         want = tt.forall(tu, self.n, js) if fa else tt.exists(tu, self.n, js)
         form %= 3
         if form == 0:
-            r = self.api.quantify(u, set(names), forall=fa)
+            r = self.call('quantify', keep, ('u', u),
+                          ('qvars', set(names)), ('forall', fa))
         elif form == 1:
-            r = self.api.forall(names, u) if fa else self.api.exist(names, u)
+            r = self.call('forall' if fa else 'exist', keep,
+                          ('qvars', names), ('u', u))
         else:
             c = self.api.cube({x: True for x in names})
             r = self.api.apply('\\A' if fa else '\\E', c, u)
@@ -652,7 +665,12 @@ class World:
         if not d:
             return
         want = tt.cofactor(tu, self.n, {self.idx[x]: v for x, v in d.items()})
-        self.hold(self.api.let(d, u), want, keep)
+        if self.kind == 'bdd' and (keep >> 6) & 1:
+            self.label('call.cofactor_direct')
+            r = self.call('cofactor', keep, ('u', u), ('values', d))
+        else:
+            r = self.call('let', keep, ('definitions', d), ('u', u))
+        self.hold(r, want, keep)
 
     def op_let_rename(self, i, mask, targets, keep=1):
         u, tu = self.pick(i)
@@ -665,7 +683,8 @@ class World:
             return
         want = tt.rename(tu, self.n,
                          {self.idx[x]: self.idx[y] for x, y in d.items()})
-        self.hold(self.api.let(d, u), want, keep)
+        r = self.call('let', keep, ('definitions', d), ('u', u))
+        self.hold(r, want, keep)
 
     def op_let_compose(self, i, mask, j1, j2, keep=1):
         u, tu = self.pick(i)
@@ -679,7 +698,12 @@ class World:
         if not d:
             return
         want = tt.compose(tu, self.n, dt)
-        self.hold(self.api.let(d, u), want, keep)
+        if self.kind == 'bdd' and len(d) == 1 and (keep >> 6) & 1:
+            self.label('call.compose_direct')
+            r = self.call('compose', keep, ('f', u), ('var_sub', d))
+        else:
+            r = self.call('let', keep, ('definitions', d), ('u', u))
+        self.hold(r, want, keep)
         self.label('let.compose.multi' if len(d) > 1 else 'let.compose.one')
 
     def op_add_expr(self, o, i, j, keep=1):
@@ -694,7 +718,7 @@ class World:
         nu, nv = self.node(u), self.node(v)
         s = f'@{nu} {op} ~ @{nv}'
         want = cu(tu, ~tv & self.F, self.n)
-        self.hold(self.api.add_expr(s), want, keep)
+        self.hold(self.call('add_expr', keep, ('expr' if self.kind == 'bdd' else 'e', s)), want, keep)
 
     def op_to_expr(self, i):
         u, tu = self.pick(i)
@@ -1157,7 +1181,17 @@ class World:
             items.reverse()
         elif k == 3:
             random.Random(p).shuffle(items)
-        self._reorder_call(dict(items))
+        # the optional attribute `roots` (also set by loading a
+        # manager): edges, possibly complemented, of live nodes
+        with_roots = bool((p >> 13) & 1) and self.held
+        if with_roots:
+            self.label('reorder_to.with_roots')
+            self.b.roots = {self.node(e.ref) for e in self.held}
+        try:
+            self._reorder_call(dict(items))
+        finally:
+            if with_roots:
+                self.b.roots = set()
         self.order = target
         self._same_identity(before)
 
